@@ -192,6 +192,13 @@ def _worker(payload):
         for n, sched in enumerate(scheds):
             with C.Scratch() as d:
                 st = await storedrv.open_storage(backend, d, sync_writer=False, **({"num_concurrent_adds": 1} if backend == "sql" else {}))
+                if n % 5 == 4:
+                    # a worker whose cross-worker notifier is configured but not connected (the first seconds after start, or no
+                    # notify server): announcing an event to the other workers fails - which must stay without consequence here
+                    from nostr_relay.notifier import NotifyClient
+
+                    st.notifier = NotifyClient(st)
+                    st.notifier.log = _Quiet()
                 try:
                     # every other schedule: all connections from one address, drawing the same random token
                     log, info, errs = await relaydrv.run_connections(st, uni, NCONNS, sched, sid_map,
